@@ -112,6 +112,12 @@ SCENARIOS = {
                                      ('alloc_put', 38, cons(3, 1, [(4, [(2, 5)])], 38))]),
         ('same-traits-vs-aggregates', [('traits_set', 39, 1, G[1], [100002]), ('aggs_set', 39, 1, G[1], [1])]),
         ('claim-vs-inventory-put', [('alloc_put', 39, cons(5, None, [(6, [(0, 1)])])), ('inv_put', 39, 6, G[6], inv(0, 8))]),
+        # a claim over two providers, overtaken by a write to the provider listed SECOND (server-side retry): when it is accepted
+        # BOTH providers' generations move (seed C10-h: providers "already incremented" by the rolled-back attempt skipped)
+        ('claim-two-providers-vs-inventory-put-second', [('alloc_put', 39, cons(5, None, [(1, [(0, 1)]), (6, [(0, 1)])])),
+                                                         ('inv_put', 39, 6, G[6], inv(0, 8))]),
+        ('claim-two-providers-vs-traits-second', [('alloc_put', 39, cons(5, None, [(2, [(0, 1)]), (1, [(2, 5)])])),
+                                                  ('traits_set', 39, 1, G[1], [100001])]),
         # requests that derive the generation themselves (POST / DELETE inventory, DELETE traits) racing a guarded write
         ('inventory-post-vs-traits', [('inv_post', 39, 3, inv(0, 4)), ('traits_set', 39, 3, G[3], [100002])]),
         ('inventory-delete-vs-traits', [('inv_delete', 6, 0), ('traits_set', 39, 6, G[6], [100002])]),
@@ -203,6 +209,10 @@ def judge(pid, scn, obs, dump, start_dump):
                     bump[op[1]] += 1
                 elif op[0] == 'aggs_set' and op[1] >= 19:
                     bump[op[2]] += 1
+                elif op[0] == 'alloc_put' and op[2]['allocs'] and not any(a[0] == op[2]['uuid'] for a in start_dump[2]):
+                    # a first claim: every provider it names is changed by it
+                    for u, _rows in op[2]['allocs']:
+                        bump[u] += 1
         g1 = {r[0]: r[2] for r in dump[0]}
         for u, n in bump.items():
             if u in g0 and u in g1 and g1[u] < g0[u] + n:
